@@ -506,7 +506,12 @@ func (w *c02World) request(p c02Pred) (s3c.Req, error) {
 	if p.Sub == "delete" && len(r.Body) > 0 {
 		h("Content-Md5", s3c.MD5B64(r.Body))
 	}
-	switch p.PM {
+	pm := strings.TrimSuffix(p.PM, "+te")
+	if pm != p.PM {
+		// HTTP chunked transfer instead of a Content-Length
+		r.TE = 700 + rng.Intn(9000)
+	}
+	switch pm {
 	case "signed", "na":
 		r.Mode = s3c.SignedPayload
 	case "unsigned":
@@ -597,6 +602,12 @@ func c02SetParam(name string, f func(string) string) func(*s3c.Wire) {
 			}
 			return ps
 		})
+	}
+}
+
+func c02PrependParam(kv string) func(*s3c.Wire) {
+	return func(w *s3c.Wire) {
+		w.Target = c02QueryEdit(w.Target, func(ps []string) []string { return append([]string{kv}, ps...) })
 	}
 }
 
@@ -764,6 +775,14 @@ func (w *c02World) applyDefect(r *s3c.Req, p c02Pred) error {
 		r.Expires = -1
 	case "bad_expiry":
 		r.TweakSigned = c02SetParam("X-Amz-Expires", func(string) string { return "abc" })
+	case "dup_expires":
+		r.Expires = 1 + rng.Intn(600)
+		r.Time = now.Add(-time.Duration(r.Expires+5+rng.Intn(7200)) * time.Second)
+		r.TweakSigned = c02PrependParam("X-Amz-Expires=604800")
+	case "dup_date":
+		r.Expires = 1 + rng.Intn(600)
+		r.Time = now.Add(-time.Duration(r.Expires+5+rng.Intn(7200)) * time.Second)
+		r.TweakSigned = c02PrependParam("X-Amz-Date=" + now.UTC().Format("20060102T150405Z"))
 	case "alt_expires":
 		r.TweakSigned = c02SetParam("X-Amz-Expires", func(string) string { return "3000" })
 	case "wrong_sig":
@@ -921,7 +940,7 @@ func C02(c *core.Ctx, replay string) {
 	// code is the repaired design; the design before the repairs (Fix = {}) is kept as the
 	// model of what the property forbids.
 	before := "Fix = {}"
-	allFixes := []string{"DeferOnlyStreaming", "DrainBeforeEffect", "ChunkLayerPropagates", "LengthErrorIs4xx"}
+	allFixes := []string{"DeferOnlyStreaming", "DrainBeforeEffect", "ChunkLayerPropagates", "LengthErrorIs4xx", "StreamEndChecked"}
 	fixSet := func(without string) string {
 		var xs []string
 		for _, f := range allFixes {
@@ -932,9 +951,9 @@ func C02(c *core.Ctx, replay string) {
 		return "Fix = {" + strings.Join(xs, ", ") + "}"
 	}
 	asis := fixSet("")
-	bodies, pms := `{"none", "small"}`, `{"signed", "sut"}`
+	bodies, pms := `{"none", "small"}`, `{"signed", "sut", "ss+te"}`
 	if c.Thorough() {
-		bodies, pms = `{"none", "small", "large"}`, `{"signed", "unsigned", "ss", "sst", "sut"}`
+		bodies, pms = `{"none", "small", "large"}`, `{"signed", "unsigned", "ss", "sst", "sut", "ss+te", "sst+te", "sut+te"}`
 	}
 
 	// 1. TLC: the model of the code as it is - lemmas, and the cases with predictions
@@ -1186,7 +1205,7 @@ func C02(c *core.Ctx, replay string) {
 	}
 	c.States += tres.Distinct
 	c.Transitions += tres.Generated
-	c.TLCRuns = append(c.TLCRuns, tres.Summary("AuthTrace", "AuthTrace.cfg (abstract rule; conformance with the as-is and the repaired pipeline model)"))
+	c.TLCRuns = append(c.TLCRuns, tres.Summary("AuthTrace", "AuthTrace.cfg (abstract rule; conformance with the as-is pipeline model and the one before the repairs)"))
 	var verdict struct {
 		Drift  []int `json:"drift"`  // against the model of the code as it is
 		DriftF []int `json:"driftf"` // against the repaired design
@@ -1226,9 +1245,10 @@ func C02(c *core.Ctx, replay string) {
 		c.Inconclusive("binding self-test: AuthTrace rejected %d of 2 corrupted observations", selfOK)
 	}
 	c.TracesValidated += int64(nReal - rejected)
-	// 4. model conformance (never a verdict): which design does the code
-	// under test implement - the code as it was modelled (Fix = {}) or the
-	// repaired design (all fixes)? Drift is reported against the closer one.
+	// 4. model conformance (never a verdict): does the code under test still
+	// behave as the as-is model (the repaired design, all fixes) predicts at
+	// hook level, has it fallen back to the design before the repairs
+	// (Fix = {}), or is it something neither model knows?
 	real := func(xs []int) []int {
 		var out []int
 		for _, i1 := range xs {
@@ -1240,7 +1260,7 @@ func C02(c *core.Ctx, replay string) {
 	}
 	dAsIs, dNeither := real(verdict.Drift), real(verdict.DriftF)
 	c.Extra["drift_vs_as_is_model"] = len(dAsIs)
-	c.Extra["drift_explained_by_repaired_design"] = len(dAsIs) - len(dNeither)
+	c.Extra["drift_explained_by_design_before_repairs"] = len(dAsIs) - len(dNeither)
 	c.Extra["drift_unexplained"] = len(dNeither)
 	neither := map[int]bool{}
 	for _, i := range dNeither {
@@ -1252,11 +1272,11 @@ func C02(c *core.Ctx, replay string) {
 		r := results[i]
 		var k string
 		if neither[i] {
-			k = fmt.Sprintf("%s/%s/%s/%s observed(hooks=%v status=%d changed=%v disclosed=%v live=%v) is predicted neither by the model of the code as it was (hooks=%v reply=%s effect=%v) nor by the repaired design",
+			k = fmt.Sprintf("%s/%s/%s/%s observed(hooks=%v status=%d changed=%v disclosed=%v live=%v) is predicted neither by the as-is model (hooks=%v reply=%s effect=%v) nor by the design before the repairs",
 				r.meta.Pred.Branch, r.meta.Pred.Shape, r.meta.Pred.Class, r.line.PM,
 				r.line.Hooks, r.line.Status/100*100, r.line.Changed, r.line.Disclosed, r.line.Live, r.meta.Pred.Hooks, r.meta.Pred.Reply, r.meta.Pred.Effect)
 		} else {
-			k = fmt.Sprintf("%s/%s now behaves as the repaired design, not as the code that was modelled (update the as-is model / close the finding)", r.meta.Pred.Branch, r.meta.Pred.Shape)
+			k = fmt.Sprintf("%s/%s behaves as the design before the repairs, not as the as-is model (a repair was undone?)", r.meta.Pred.Branch, r.meta.Pred.Shape)
 		}
 		driftClasses[k]++
 		if len(driftEx[k]) < 12 {
@@ -1303,6 +1323,6 @@ func C02(c *core.Ctx, replay string) {
 		}
 	}
 	if len(driftClasses) > 0 {
-		c.Logf("MODEL-DRIFT: the as-is model of AuthPipeline mispredicts %d observations (%d classes); %d of them are what the repaired design predicts", nDrift, len(driftClasses), len(dAsIs)-len(dNeither))
+		c.Logf("MODEL-DRIFT: the as-is model of AuthPipeline mispredicts %d observations (%d classes); %d of them are what the design before the repairs predicts", nDrift, len(driftClasses), len(dAsIs)-len(dNeither))
 	}
 }
